@@ -297,6 +297,9 @@ def check(ctx):
     from . import c03 as _c03
     from ..report import Renamed as _RenW
     _c03.rule_widening(_RenW(ctx, {'*': 'R9'}))
+    # setna / fillna write through put(cast=True): the writers store the widened array they write into (shared with C03)
+    ctx.rule('R10', 'put writers: cast discipline, stores to _values only (shared with C03)', 6)
+    _c03.rule_writers(_RenW(ctx, {'*': 'R10'}))
     ctx.not_decided += ['which labels survive for a given NaN pattern (value level)', 'stability of argsort for equal labels']
     ctx.trusted += ['ndarray.argsort sorts ascending', 'ndarray.compress / take semantics']
     return EXPLANATION
